@@ -25,6 +25,8 @@ class _T:
 
 
 Ref = _T('Ref')
+Tuple = _T('Tuple')
+Opt = _T('Opt')
 Obj = _T('Obj')
 Ver = _T('Ver')
 Any = _T('Any')
